@@ -212,6 +212,9 @@ func newE2E(carrier string, relay func(target string) string) (*e2e, error) {
 		}
 		w.stops = append(w.stops, func() { s.Shutdown() })
 		url = fmt.Sprintf("dns://example.org?direct=false&dns=127.0.0.1:%d", port)
+		if relay != nil {
+			relay(fmt.Sprintf("127.0.0.1:%d", port)) // raw access for a peer of the scenario's own making
+		}
 	default:
 		panic("verifharness: unknown carrier " + carrier)
 	}
